@@ -18,19 +18,20 @@ open Pepper Pepper.Comp
 def NZ (s : St) : Prop := (∀ t ∈ s.strands, t.len ≠ 0) ∧ (∀ e ∈ s.structs, e.struct ≠ [])
 
 theorem registerAnon_fields (s : St) (b : Built) :
-    (registerAnon s b).strands = s.strands ∧ (registerAnon s b).structs = s.structs := by
+    (registerAnon s b).strands = s.strands ∧ (registerAnon s b).structs = s.structs ∧
+      (registerAnon s b).kins = s.kins := by
   unfold registerAnon
   generalize b.items = its
   induction its generalizing s with
-  | nil => exact ⟨rfl, rfl⟩
+  | nil => exact ⟨rfl, rfl, rfl⟩
   | cons i r ih =>
     simp only [List.foldl_cons]
     split
     · exact ih s
     · split
       · rename_i e _
-        obtain ⟨h1, h2⟩ := ih { s with seqs := s.seqs ++ [e] }
-        exact ⟨h1, h2⟩
+        obtain ⟨h1, h2, h3⟩ := ih { s with seqs := s.seqs ++ [e] }
+        exact ⟨h1, h2, h3⟩
       · exact ih s
 
 theorem sizesOk_nonempty {full : List Char} {lens : List Nat} (h : Notation.sizesOk full lens = true)
@@ -53,11 +54,11 @@ theorem addStmt_NZ {s : St} {a : Nat} {stmt : Stmt} {s' : St} {a' : Nat} (hz : N
       obtain ⟨_, l, c, _, rfl, _⟩ := addStmt_seq_base h
       exact hz
     · obtain ⟨_, cs, b, _, _, rfl, _⟩ := addStmt_seq_sup (fun t ht => hb ⟨t, ht⟩) h
-      obtain ⟨h1, h2⟩ := registerAnon_fields { s with seqs := s.seqs ++ [⟨name, true, false, b.len, [], b.items, b.bases, false⟩] } b
+      obtain ⟨h1, h2, _⟩ := registerAnon_fields { s with seqs := s.seqs ++ [⟨name, true, false, b.len, [], b.items, b.bases, false⟩] } b
       exact ⟨by rw [h1]; exact hz.1, by rw [h2]; exact hz.2⟩
   | strand dummy name items len =>
     obtain ⟨_, cs, b, _, _, hne, rfl, _⟩ := addStmt_strand h
-    obtain ⟨h1, h2⟩ := registerAnon_fields { s with strands := s.strands ++ [⟨name, dummy, b.len, b.items, b.bases, false⟩] } b
+    obtain ⟨h1, h2, _⟩ := registerAnon_fields { s with strands := s.strands ++ [⟨name, dummy, b.len, b.items, b.bases, false⟩] } b
     rw [markInStrand_eq]
     refine ⟨?_, ?_⟩
     · show ∀ t ∈ (registerAnon _ b).strands, t.len ≠ 0
